@@ -521,6 +521,15 @@ def step (s : DState) (line : String) : DState × List String :=
           let sorted := Raw.strictAsc (bs.raw.abs.map (·.1))
           if !sorted then diff s "SPEC" s!"children not in ascending byte order"
           else if impl != m then diff s "MODEL" s!"enum: impl={impl} model={m}" else (s, [])
+        | "min", [] | "max", [] =>
+          -- one step of minimum()/maximum(): the child the real walk went through
+          if bs.collapsed.isSome then (s, []) else
+          let tbl := if op == "min" then bs.raw.abs.head? else bs.raw.abs.getLast?
+          let viaAbs := match tbl with | some (_, c) => toString c | none => "-"
+          let viaModel := match (if op == "min" then bs.raw.minChild else bs.raw.maxChild) with | some c => toString c | none => "-"
+          if impl != viaAbs then diff s "SPEC" s!"{op}: impl={impl} table={viaAbs}"
+          else if impl != viaModel then diff s "MODEL" s!"{op}: impl={impl} model={viaModel}"
+          else (s, [])
         | "inv", [] =>
           if bs.collapsed.isNone && !bs.raw.inv && !(bs.raw.cls == 256 && (liveSlots bs.raw).length == 256) then diff s "INV" s!"raw invariant violated: {renderRaw bs.raw}" else (s, [])
         | _, _ => diff s "PROTO" s!"unknown bn op {op}"
